@@ -2,6 +2,7 @@ import CppUModel.Base.Proto
 import CppUModel.Model.Mock
 import CppUModel.Model.MockParam
 import CppUModel.Model.MockText
+import CppUModel.Model.MockTeardown
 /-!
 Driver for C08 (mock verdict).
 
@@ -110,6 +111,7 @@ inductive Cmd
   | expect (s : String) (n : Nat) (fn : String) (segs : List ESeg)
   | call (s : String) (fn : String) (segs : List Seg) (r : Bool)
   | plugin                 -- the case runs 2..5 scripted tests in a registry with MockSupportPlugin installed
+  | teardown               -- … in a registry WITHOUT the plugin: default reporter, `mock().checkExpectations(); mock().clear();` in teardown()
   | test (name : String)   -- a scripted test begins (its body = the following scenario lines)
   | failPlain              -- a plain FAIL in the test body
   | endtest                -- teardown(): the body is over; the plugin's postTestAction follows
@@ -127,6 +129,7 @@ def parseCmdWith (pv : String → String → Option Val) (ws : List String) : Op
   match ws with
   | ["skip"] => some .skip
   | ["plugin"] => some .plugin
+  | ["teardown"] => some .teardown
   | ["test", n] => some (.test n)
   | ["fail"] => some .failPlain
   | ["endtest"] => some .endtest
@@ -161,6 +164,7 @@ structure DState where
   stopped : Bool := false
   plugin : Bool := false          -- plugin mode: a failure ends the test body, not the case
   testFailed : Bool := false      -- the current scripted test has failed
+  teardown : Bool := false        -- teardown mode: no plugin; every test starts with mock().clear() and verifies the mock in teardown()
 deriving Inhabited
 
 def failLine (m : String) : String := "fail " ++ m
@@ -179,11 +183,14 @@ def stop (d : DState) (w : World) (m : String) (hist : List String) : DState × 
 def modelCmd (d : DState) : Cmd → DState × List String
   | .skip => (d, [])
   | .plugin => ({ w := World.init, plugin := true }, [])
-  | .test _ => ({ d with testFailed := false }, [])
+  | .teardown => ({ w := World.init, plugin := true, teardown := true }, [])
+  | .test _ => ({ d with testFailed := false, w := if d.teardown then d.w.clear "" else d.w }, [])
   | .failPlain => ({ d with testFailed := true }, [failLine "scripted"])
   | .endtest =>
-    -- MockSupportPlugin::postTestAction (Model: `pluginPost`)
-    match pluginPost { w := d.w, failed := d.testFailed, msgs := [] } with
+    -- MockSupportPlugin::postTestAction (Model: `pluginPost`), or the test's own teardown() under the
+    -- default reporter (Model: `teardownPost`, reporter body regenerated from MockFailure.cpp)
+    match (if d.teardown then teardownPost { w := d.w, failed := d.testFailed, msgs := [] }
+           else pluginPost { w := d.w, failed := d.testFailed, msgs := [] }) with
     | (fs, w) =>
       ({ d with w := w, testFailed := false },
        fs.map failLine ++ [if d.testFailed || !fs.isEmpty then "verdict fail" else "verdict pass"])
@@ -332,7 +339,8 @@ def noteKinds (kinds : List (String × Nat)) (ps : List (String × Val)) : List 
 def preCmd (p : Pre) : Cmd → Pre
   | .skip => { p with ok := false }
   | .plugin => p
-  | .test _ => { p with st := {} }          -- the plugin has cleared the mock
+  | .teardown => p
+  | .test _ => { p with st := {} }          -- the plugin (teardown mode: the test's setup) has cleared the mock
   | .failPlain => p
   | .endtest => p
   | .strict s =>
@@ -553,6 +561,7 @@ def oExpect (st0 : OState) (s : String) (n : Nat) (fn : String) (segs : List ESe
 def oCmd (st : OState) : Cmd → OState × Want
   | .skip => (st, {})
   | .plugin => (st, {})
+  | .teardown => (st, {})
   | .test _ => ({}, {})
   | .failPlain => (st, { fail := some "scripted" })
   | .endtest => (st, {})
@@ -669,27 +678,48 @@ def judgeEndTest (st : OState) (tfailed : Bool) (obs : List (List String)) : Exc
     | none, some g => .error s!"failure reported at the end of the test although nothing deviates: `{g}`"
     | none, none => if obsVerdict obs == some "pass" then .ok () else .error "the test failed although nothing deviates"
 
+/-- the mock failures reported under one operation -/
+def obsMockFails (obs : List (List String)) : List String :=
+  (obs.filter (fun l => l.head? == some "fail")).map (fun l => " ".intercalate (l.drop 1))
+
+/-- the end of a scripted test that verifies the mock itself, `teardown() { mock().checkExpectations();
+    mock().clear(); }`, with the library's default reporter ("the first deviation fails the test ONCE with
+    the matching diagnosis"): a test whose body was ended by a mock failure must not be failed by the mock
+    again, whatever the end-of-test check finds; a test that has not failed gets at most one failure, the
+    textbook diagnosis of its scenario followed by `checkExpectations`; a test that failed for another
+    reason (plain FAIL) must be failed, and by the mock at most once -/
+def judgeTeardown (st : OState) (tfailed mfailed : Bool) (obs : List (List String)) : Except String Unit :=
+  let fs := obsMockFails obs
+  if mfailed then
+    match fs with
+    | g :: _ => .error s!"the test had already been failed by the mock (first deviation); the end-of-test check in teardown failed it again: `{g}`"
+    | [] => if obsVerdict obs == some "fail" then .ok () else .error "the test failed in its body but the run reports it as passed"
+  else if fs.length > 1 then .error s!"the end-of-test check failed the test {fs.length} times: `{" | ".intercalate fs}`"
+  else judgeEndTest st tfailed obs
+
 def run (ops : List Proto.Op) : Option String :=
   let cmds := ops.map (fun o => (parseCmdOracle o.op).getD .skip)
   if !judged cmds then none
   else
-    let plugin := cmds.head? matches some .plugin
-    let rec go (st : OState) (tfailed : Bool) (i : Nat) : List Proto.Op → Option String
+    let teardown := cmds.head? matches some .teardown
+    let plugin := teardown || cmds.head? matches some .plugin
+    let rec go (st : OState) (tfailed mfailed : Bool) (i : Nat) : List Proto.Op → Option String
       | [] => none
       | o :: rest =>
         match (parseCmdOracle o.op).getD .skip with
         | .endtest =>
-          match judgeEndTest st tfailed o.obs with
+          match (if teardown then judgeTeardown st tfailed mfailed o.obs else judgeEndTest st tfailed o.obs) with
           | .error e => some s!"op#{i} endtest: {e}"
-          | .ok () => go {} false (i + 1) rest
+          | .ok () => go {} false false (i + 1) rest
         | c =>
           match oCmd st c with
           | (st1, w) =>
             match judgeOp w o.obs with
             | .error e => some s!"op#{i} {" ".intercalate o.op}: {e}"
-            | .ok true => if plugin then go st1 true (i + 1) rest else none
-            | .ok false => go st1 (match c with | .test _ => false | _ => tfailed) (i + 1) rest
-    go {} false 0 ops
+            | .ok true => if plugin then go st1 true (mfailed || !(c matches .failPlain)) (i + 1) rest else none
+            | .ok false =>
+              go st1 (match c with | .test _ => false | _ => tfailed) (match c with | .test _ => false | _ => mfailed) (i + 1) rest
+    go {} false false 0 ops
 
 end Oracle
 
